@@ -429,6 +429,17 @@ func compare(ctx reporter, ref *refDoc, obs map[string]*obox, desc string) (fail
 		}
 	}
 	visit(ref.boxes[0])
+	if o := obs["html"]; o != nil {
+		// the root element ends at the bottom margin edge of the body (§10.6.7)
+		ctx.Count("root-bottom-compared", 1)
+		r := ref.root
+		want, got := r.y+r.bh, o.y+o.bh
+		if cons := math.Max(o.y, r.rawBottom+delta); near(got, want) || !near(got, cons) {
+			edge("bottom", r, ref.setFeatures(r.botSets), "border-box bottom of the root element", want, got)
+		}
+	} else {
+		fail("box-count", ref.root, nil, "no box for the root element")
+	}
 
 	// collapsed sets that were exercised
 	countSets(ctx, ref)
